@@ -3,7 +3,7 @@
    These are the entry points that are extracted and compared with the implementation. *)
 From Coq Require Import List NArith ZArith.
 From I18n Require Import Lib.Outcome Lib.Ranges Generated.Ucd Generated.PyFmtInfo Generated.PyConsts
-  Model.FmtPerlBrace Model.FmtPython Model.FmtPyBrace.
+  Model.FmtPerlBrace Model.FmtPython Model.FmtPyBrace Model.FmtPyBraceDomain.
 
 Definition perl_parse_ucd (s : list N) := perl_parse_steps re_w re_d s.
 
@@ -17,3 +17,7 @@ Definition gen_ucd : ucd := {|
   u_w := re_w; u_d := re_d; u_isdecimal := py_isdecimal;
   u_decval := re_d_value; u_maxd := int_max_str_digits |}.
 Definition pybrace_parse_gen (s : list N) := pybrace_parse gen_ucd gen_pybrace_ssize_max s.
+
+(* (every field is flat, every field is flat and its format spec is outside D24): the domain of C13_py_flat_formats *)
+Definition pybrace_domain_gen (s : list N) : bool * bool :=
+  (all_flat gen_ucd (S (length s)) s, flat_guard gen_ucd (S (length s)) s).
